@@ -41,6 +41,8 @@ def run(ctx, repo):
     RX.r_buffer_encapsulated(ctx, repo)
     RLNG.r_regex_linear(ctx, repo)
 
+    RX.r_plain_start_consumed(ctx, repo)
+
 
 if __name__ == '__main__':
     sys.exit(report.main('C03', 'other', run))
